@@ -533,7 +533,7 @@ def norm(e):
         b = norm(e[1])
         if e[2] == "0":
             if b[0] == "bin" and b[1] in _OVF:
-                return ("bin", _OVF[b[1]], b[2], b[3])
+                return norm(("bin", _OVF[b[1]], b[2], b[3]))
             if b[0] == "variant":
                 inner = b[1]
                 if b[2] == "Continue" and inner[0] == "call" and inner[1].endswith("Try::branch"):
@@ -559,7 +559,19 @@ def norm(e):
     if k == "un":
         return ("un", e[1], norm(e[2]))
     if k == "bin":
-        return ("bin", e[1], norm(e[2]), norm(e[3]))
+        a_, b_ = norm(e[2]), norm(e[3])
+        op_ = _OVF.get(e[1], e[1]) if e[1] in _OVF else e[1]
+        # arithmetic on two literals (a named length minus one, 2 + 10, ...) is that literal
+        if a_[0] in ("const", "named") and b_[0] in ("const", "named") and isinstance(a_[2], int) and isinstance(b_[2], int) and \
+                not isinstance(a_[2], bool) and not isinstance(b_[2], bool) and e[1] in ("Add", "Sub", "Mul", "BitOr", "BitAnd", "Shl", "Shr"):
+            try:
+                r_ = {"Add": a_[2] + b_[2], "Sub": a_[2] - b_[2], "Mul": a_[2] * b_[2], "BitOr": a_[2] | b_[2], "BitAnd": a_[2] & b_[2],
+                      "Shl": a_[2] << b_[2] if 0 <= b_[2] < 64 else None, "Shr": a_[2] >> b_[2] if 0 <= b_[2] < 64 else None}[e[1]]
+            except (ValueError, OverflowError):
+                r_ = None
+            if r_ is not None and 0 <= r_ < (1 << 64):
+                return ("const", a_[1], r_)
+        return ("bin", e[1], a_, b_)
     if k == "index":
         b, i = norm(e[1]), norm(e[2])
         # constant index into an array literal / tuple-like aggregate: the element itself
